@@ -34,6 +34,18 @@ func (P *Prog) readSet(name string, f *ssa.Function, c *Contract) map[string]Sor
 	if f == nil || len(f.Blocks) == 0 || !P.inModule(f) {
 		return out
 	}
+	// A function all of whose parameters are scalars or strings can reach
+	// mutable memory only through package-level variables, which are
+	// immutable after initialisation: its result depends on no heap.
+	refParam := false
+	for _, p := range f.Params {
+		if hasReference(p.Type(), 0) {
+			refParam = true
+		}
+	}
+	if !refParam && len(f.FreeVars) == 0 {
+		return out
+	}
 	x := &Exec{P: P}
 	for _, b := range f.Blocks {
 		for _, in := range b.Instrs {
@@ -128,4 +140,24 @@ func rootIsLocalAlloc(v ssa.Value) bool {
 			return false
 		}
 	}
+}
+
+func hasReference(t types.Type, depth int) bool {
+	if depth > 6 {
+		return true
+	}
+	switch u := t.Underlying().(type) {
+	case *types.Basic:
+		return false
+	case *types.Struct:
+		for i := 0; i < u.NumFields(); i++ {
+			if hasReference(u.Field(i).Type(), depth+1) {
+				return true
+			}
+		}
+		return false
+	case *types.Array:
+		return hasReference(u.Elem(), depth+1)
+	}
+	return true
 }
